@@ -880,3 +880,11 @@ for _cls18 in (c01.NULLARY, c01.PADDING, c01.CONCAT, c01.REPEAT, c01.RANGE, c01.
         _c18 = REG.contracts.get(_cls18 + "." + _m18)
         if _c18 is not None and "C18" not in _c18.props:
             _c18.props.append("C18")
+
+# effect obligations (AST): model objects and the functions that build / compare them keep no state outside the objects
+from .common import no_hidden_state_check as _no_hidden_state_check  # noqa: E402
+EXTRA_CHECKS = list(globals().get("EXTRA_CHECKS", [])) + [_no_hidden_state_check(
+    ["pydsdl._bit_length_set._bit_length_set", "pydsdl._bit_length_set._symbolic", "pydsdl._serializable._serializable",
+     "pydsdl._serializable._attribute", "pydsdl._serializable._composite", "pydsdl._serializable._array",
+     "pydsdl._serializable._primitive", "pydsdl._serializable._void", "pydsdl._expression._any",
+     "pydsdl._expression._primitive", "pydsdl._expression._container"], "the model classes")]
